@@ -141,11 +141,12 @@ _c03 = [("tx_input", "hash: all bytes; index: all u32", ["TransactionInput::to_b
 PROPS["C03"] = dict(
     bounds="integers (E2): BigInt / Plutus-data integer form and head width for every mathematical integer; struct forms (E2): every serializer path of 46 certificate / governance-action / relay / native-script / witness / small struct types against a table written from the Conway CDDL (array length, discriminant, field order, null for absent optional fields), nested values opaque; shapes (E1): transaction input, ADA-only value (and empty bundle == absent), legacy enterprise output, certificate forms 0,1,2,4,7,8,11 (thorough: 14-18) with both credential kinds; every scalar leaf over its full range, hash bytes symbolic",
     assumptions=["the reference encoder (kani/src/refcbor.rs) is written from RFC 8949 and the Conway CDDL and shares no code with CSL or cbor_event",
-                 "types outside the shape list (transaction body, protocol parameter updates, governance actions, metadata, Plutus data trees, blocks) and builder outputs as a whole are outside the bound"],
+                 "map keys (E2): transaction body (21 keys), witness set (8 keys) and protocol parameter update (34 keys) against key tables written from the CDDL, for the presence combinations listed in each obligation; transaction output: the two CDDL forms for the six datum x script-reference combinations",
+                 "byte-level shapes outside the E1 list (metadata, Plutus data trees, blocks) and builder outputs as a whole are outside the bound"],
     # harnesses that do not finish under the memory/time caps on this machine (value_1x2, value_2x1, output_legacy_datahash, output_inline_datum,
     # output_script_ref_and_datahash, small_structs, cert_votes, withdrawals_and_mint, redeemer_enc, size_bounds: CBMC out of memory at 10 GB or > 20 min)
     # are kept in kani/src/c03.rs but are not part of the claim
-    e2=["c03"],
+    e2=["c03", "c03_keys"],
     e1=[J("c03_" + n, bound=b, encodes=e, unwind_fn=HL3, mem_gb=10, timeout_s=1500, tier=("quick" if n in ("tx_input", "value_ada", "output_legacy", "cert_stake_reg_dereg", "cert_delegations") else "thorough"))
         for n, b, e in _c03 if n in ("tx_input", "value_ada", "output_legacy", "cert_stake_reg_dereg", "cert_delegations", "cert_governance")],
 )
@@ -233,12 +234,14 @@ PROPS["C02"] = dict(
 
 PROPS["C08"] = dict(
     bounds="function level: cip2_largest_first_by with 0..3 (thorough: 4) offered UTxOs, lovelace or an arbitrary asset as the quantity, every ordering and tie pattern, all u64 amounts / totals / per-input fees; "
-           "cip2_random_improve_by with 1..3 offered UTxOs and 1..2 outputs, lovelace quantities below 2^62, EVERY sequence of RNG draws (each draw is enumerated by solver-checked forks), improvement phase on",
+           "cip2_random_improve_by with 1..3 offered UTxOs and 1..2 outputs, lovelace quantities below 2^62, EVERY sequence of RNG draws (each draw is enumerated by solver-checked forks), improvement phase on; "
+           "add_inputs_from as a whole over the kernels' contracts: 0..2 offered UTxOs, four strategies, builder with / without inputs, every RNG draw of the fee top-up",
     assumptions=["`by` is the quantity being covered: the coin, or one arbitrary asset (a value holds the asset iff its quantity is positive)",
                  "fee_for_input and TxInputsBuilder::add_regular_utxo are stubs (arbitrary fee / arbitrary Ok-Err in the largest-first obligation; Ok in the random-improve one); Value arithmetic through the pointwise summaries of valuemodel.py",
-                 "NOT decided: the strategy dispatch and pre-selection in add_inputs_from, the multi-asset composition of several runs, the fee top-up loop, and therefore the end-to-end clause "
-                 "'the builder's actual inputs cover outputs plus the minimum fee' — only its bookkeeping preconditions (distinct members, available set in step, totals = what was added) are",
+                 "composition (c08_dispatch): add_inputs_from executed from MIR with the two kernels replaced by the contracts the kernel obligations establish, 0..2 offered UTxOs, lovelace only, "
+                 "the multi-asset strategies with no asset requested; initial totals (get_total_input / get_total_output / min_fee) arbitrary coins; fee_for_input = the increase of the minimum fee the input causes (its definition)",
+                 "NOT decided: the per-asset composition of several kernel runs in the multi-asset strategies with assets requested",
                  "amounts >= 2^62 in the improvement phase (2x / 3x of an output's coin) are outside the random-improve bound"],
     e1=[],
-    e2=["c08", "c08_ri"],
+    e2=["c08", "c08_ri", "c08_dispatch"],
 )
